@@ -160,7 +160,9 @@ def factory(kind, spec):
     if kind == "transcript":
         return tx, ops
     tx2 = mk_tx(spec["blocks"][:1], spec["strand"], None, None, parent=par, transcript_id="tx2", sequence_name="chr")
-    gquals = {"note": ["from-gene"], "k": ["v"], "g": ["only-gene"]}
+    # (the gene's free qualifiers also hold keys that its children ADD on export -- their own identifiers)
+    gquals = {"note": ["from-gene"], "k": ["v"], "g": ["only-gene"], "protein_id": ["gene-level-pid"],
+              "transcript_id": ["gene-level-tid"], "product": ["gene-level-product"]}
     gene = GeneInterval([tx, tx2], gene_id="g1", gene_symbol="gs", locus_tag="lt", sequence_name="chr",
                         qualifiers={k: list(v) for k, v in gquals.items()}, parent_or_seq_chunk_parent=par)
     if kind == "gene":
